@@ -12,7 +12,8 @@
               oversized input: only the offender is affected, C05)
    and at the end of every sequence the replayer cuts what is left in the order `rest`,
    calls Server.Close and requires: every teardown finished, Close returned, no goroutine
-   of the library left, no subscription and no clean session left, the witness pair saw
+   of the library left, no subscription and no clean session left (the witness publisher connects without a client
+   identifier: the session the broker named for it included), the witness pair saw
    exactly its own traffic.                                                            *)
 EXTENDS Integers, Sequences, FiniteSets, TLC, Json
 
@@ -98,7 +99,10 @@ Resume(c) == /\ c \in {"P", "S"} /\ st[c] = "up" /\ ~reading[c] /\ ~closedSrv
 
 AttackKinds == {"pre-garbage", "pre-truncated-connect", "pre-cut-in-header", "pre-cut-in-body", "pre-huge-remlen", "pre-remlen-five-bytes",
                 "post-truncated-publish", "post-garbage", "post-huge-remlen", "post-cut-mid-packet", "post-bad-flags",
-                "post-second-connect", "post-zero-length-topic"}
+                "post-second-connect", "post-zero-length-topic",
+                \* well-formed packets the broker refuses in part: a SUBSCRIBE with a filter it rejects (answered with 0x80),
+                \* an UNSUBSCRIBE of a filter nobody has - whatever the offender gets, the others go on being served
+                "post-refused-filter", "post-unsubscribe-unknown"}
 Next == steps < MaxSteps /\
         \/ \E c \in {"P", "S"} : Burst(c) \/ StopReading(c)
         \/ \E c \in {"P", "S"}, how \in {"cut", "disconnect", "bad", "over", "edge", "ping-halfclose"} : End(c, how)
